@@ -264,23 +264,26 @@ func init() {
 
 	reg(&Prop{
 		ID:    "C17",
-		Title: "ScriptFromDataAndConstant embeds data as an inert, round-tripping JSON literal (string data)",
+		Title: "ScriptFromDataAndConstant embeds data as an inert, round-tripping JSON literal (string data and marshaler-provided JSON text)",
 		Harnesses: []HarnessSpec{
 			{Pkg: "safehtml", Name: "vHarness_C17_string", Quick: []ParamRange{{"nn", 0, 4}, {"n", 0, 3}}, Thorough: []ParamRange{{"nn", 0, 5}, {"n", 0, 5}}, Reach: []string{"accepted", "rejected"},
 				Filter: func(p map[string]int) bool { return p["nn"] <= 2 || p["n"] <= 2 },
 				Desc: "name and string data symbolic: success => name is an ASCII identifier, result == var name = J;\\nscript, J is a JSON string literal that a scalar JSON-string scanner finds inert (no raw quote / control / < > & / U+2028 / U+2029)"},
+			{Pkg: "safehtml", Name: "vHarness_C17_raw", Quick: []ParamRange{{"n", 0, 5}}, Thorough: []ParamRange{{"n", 0, 6}}, Reach: []string{"accepted", "rejected"},
+				Desc: "data that brings its own JSON text (json.RawMessage with symbolic bytes, as any json.Marshaler may): validated and compacted by the real encoding/json.appendCompact and scanner from stdlib SSA; success => result == var xy = J;\\nscript and J holds no raw < > & U+2028 U+2029"},
 		},
 		Probes: []ProbeSpec{
+			{Pkg: "safehtml", Name: "vProbe_C17_raw", NArgs: 1, Alphabet: "\"[]{}:,0-1.eE tfn\\u<>&\xe2\x80\xa8\xa9\n", MaxLen: 8, N: 1500, Extra: []string{"null", "true", "\"<\"", "\"\u2028\"", "[1,2]", "{\"a\":\"&\"}", " 1 ", "1e5", "\"\\u003c\"", "[", "\"\xe2\x80\xa9\""}},
 			{Pkg: "safehtml", Name: "vProbe_C17_script", NArgs: 2, Alphabet: "ab$_0\"\\\\<>&/\n\x00\x1f\xe2\x80\xa8\xa9\xff ", MaxLen: 6, N: 1500, TestDir: ".", Extra: []string{"x", "myVar", "9a", "a b", "\u2028", "\u2029", "</script>", "<!--", "\xff\xfe", "\u00e9"}},
 		},
 		Functions: []string{"safehtml.ScriptFromDataAndConstant", "safehtml.Script.String", "jsIdentifierPattern from the current source", "encoding/json.appendString[string] (stdlib SSA, with htmlSafeSet / hex built by executing encoding/json's initialiser)"},
 		Bounds: map[string]string{
-			"quick":    "names of 0..4 bytes x string data of 0..3 arbitrary bytes (longer names only with data <= 2 bytes)",
-			"thorough": "names of 0..5 bytes x string data of 0..5 arbitrary bytes (names > 2 bytes only with data <= 2 bytes)",
+			"quick":    "names of 0..4 bytes x string data of 0..3 arbitrary bytes (longer names only with data <= 2 bytes); raw JSON text of 0..5 arbitrary bytes",
+			"thorough": "names of 0..5 bytes x string data of 0..5 arbitrary bytes (names > 2 bytes only with data <= 2 bytes); raw JSON text of 0..6 bytes",
 		},
-		Outside: []string{"every data value that is not a Go string: maps, slices, structs, numbers, json.Marshaler / TextMarshaler implementations, json.RawMessage, unencodable values (their encoding runs through reflect and the encoder cache, which the engine cannot encode)",
-			"the 'decodes back to the same JSON value' clause (needs the decoder)", "a change to a different encoder API is reported INCONCLUSIVE, not pass"},
-		Intrinsics: []string{"encoding/json.Marshal for dynamic type string = appendString[string](nil, v, true) from stdlib SSA", "fmt.Sprintf with %s", "regexp MatchString"},
+		Outside: []string{"data values other than a Go string or a json.RawMessage: maps, slices, structs, numbers, TextMarshaler implementations, unencodable values (their encoding runs through reflect and the encoder cache, which the engine cannot encode); json.RawMessage stands for every json.Marshaler in that encoding/json treats the bytes a marshaler returns the same way",
+			"the 'decodes back to the same JSON value' clause (needs the decoder)", "a change to an encoder API other than json.Marshal / (*json.Encoder).Encode is reported INCONCLUSIVE, not pass"},
+		Intrinsics: []string{"encoding/json.Marshal and (*json.Encoder).Encode for dynamic type string = appendString[string](nil, v, escapeHTML) and for json.RawMessage = appendCompact(nil, raw, escapeHTML), both from stdlib SSA", "sync.Pool.Get = New()", "strings.Replacer", "fmt.Sprintf with %s", "regexp MatchString"},
 	})
 
 	ampOK := func(p map[string]int) bool { return p["amp"] < p["np"] && (p["amp"] != -2 || p["np"] >= 3) }
@@ -425,6 +428,11 @@ func init() {
 				Desc: "srcset candidates (the sanitizer behind _sanitizeURLSet): every candidate the WHATWG srcset parser finds in URLSetSanitized(s) has a URL that URLSanitized leaves unchanged"},
 			{Pkg: "template", Name: "vHarness_C01_text", Quick: []ParamRange{{"pre", 5, 5}, {"n", 8, 8}}, Thorough: []ParamRange{{"pre", 5, 5}, {"n", 7, 9}},
 				Desc: "where a script/style body ends: the escaper's context after a style-body text agrees with the HTML tokenizer (an action after a miscounted end tag would be sanitized as HTML text inside the element)"},
+			{Pkg: "safehtml", Name: "vHarness_C11_sound", Quick: []ParamRange{{"ascii", 1, 1}, {"n", 8, 13}}, Thorough: []ParamRange{{"ascii", 1, 1}, {"n", 0, 16}},
+				Desc: "the URL sanitizer behind _sanitizeURL: an accepted ASCII string (lengths around \"javascript:\") has no javascript scheme under the WHATWG scanner"},
+			{Pkg: "template", Name: "vHarness_C14_prefix", Quick: []ParamRange{{"ctx", 0, 0}, {"amp", -5, -4}, {"k", 1, 3}, {"np", 5, 8}}, Thorough: []ParamRange{{"ctx", 0, 3}, {"amp", -5, -4}, {"k", 1, 3}, {"np", 5, 8}},
+				Filter: func(p map[string]int) bool { return (p["ctx"] == 0 || p["ctx"] == 3) && p["np"]-p["k"] >= 4 && p["np"]-p["k"] <= 6 },
+				Desc: "static URL prefixes with a decimal character reference next to symbolic bytes (validateURLPrefix sees what the browser decodes)"},
 			{Pkg: "template", Name: "vHarness_C02_mangle", Quick: []ParamRange{{"relvar", 0, 1}, {"ctx", 0, 5}, {"n1", 0, 2}, {"n2", 0, 2}}, Thorough: []ParamRange{{"relvar", 0, 1}, {"ctx", 0, 5}, {"n1", 0, 3}, {"n2", 0, 3}},
 				Filter: func(p map[string]int) bool { return p["relvar"] == 0 || p["ctx"] == 4 }, Reach: []string{"same-name"},
 				Desc: "two URL-attribute contexts with symbolic static prefixes (and differing rel): equal mangled names => equal sanitizer chains"},
